@@ -219,6 +219,25 @@ def run_grammar(scr, verdict, binp, rows, stats, tag, with_items, with_resources
     return m
 
 
+INTERNAL_TYPEREF_FILE = "gr/_internal/time/IT.go"
+INTERNAL_TYPEREF_SRC = '''package time
+
+import "github.com/PapaCharlie/go-restli/v2/fnv1a"
+
+// IT is a hand-written custom typeref over long, in a namespace with an `internal` component.
+type IT struct{ N int64 }
+
+func MarshalIT(i IT) (int64, error)   { return i.N, nil }
+func UnmarshalIT(n int64) (IT, error) { return IT{N: n}, nil }
+func EqualsIT(a, b IT) bool           { return a == b }
+func ComputeHashIT(i IT) fnv1a.Hash {
+	h := fnv1a.NewHash()
+	h.AddInt64(i.N)
+	return h
+}
+'''
+
+
 def regen_layouts(scr, verdict, binp, prop, stats):
     """Regeneration in both output layouts (flat, and under the manifest's package root) with a hand-written custom
     typeref and user files beside the generated code: they survive byte for byte, no generated twin of the custom
@@ -234,6 +253,10 @@ def regen_layouts(scr, verdict, binp, prop, stats):
         root = "verifharness/gen"
         types = list(grammar.BASE_TYPES) + [grammar.record("UsesCT", [grammar.F("when", grammar.R("CT")), grammar.F("maybe", grammar.R("CT"), optional=True),
                                                                         grammar.F("many", {"array": grammar.R("CT")}, optional=True)])]
+        # a second custom typeref whose namespace has an `internal` component: its package directory is gr/_internal/time
+        # (the generator escapes the component), and that is where the hand-written file lives
+        types += [grammar.named("typeref", "IT", ns="gr.internal.time", type="int64", isCustom=False),
+                  grammar.record("UsesIT", [grammar.F("at", grammar.R("IT", "gr.internal.time")), grammar.F("ats", {"map": grammar.R("IT", "gr.internal.time")}, optional=True)])]
         m = {"packageRoot": root, "inputDataTypes": types, "dependencyDataTypes": [], "resources": []}
         mf = os.path.join(top, "manifest.json")
         json.dump(m, open(mf, "w"))
@@ -242,7 +265,9 @@ def regen_layouts(scr, verdict, binp, prop, stats):
         os.makedirs(os.path.join(gendir, "gr"))
         foreign = dict(USER_FILES)
         foreign[grammar.CUSTOM_TYPEREF_FILE] = grammar.CUSTOM_TYPEREF_SRC
+        foreign[INTERNAL_TYPEREF_FILE] = INTERNAL_TYPEREF_SRC
         for p, c in foreign.items():
+            os.makedirs(os.path.dirname(os.path.join(gendir, p)), exist_ok=True)
             with open(os.path.join(gendir, p), "w") as f:
                 f.write(c)
         runs = []
@@ -263,9 +288,9 @@ def regen_layouts(scr, verdict, binp, prop, stats):
             fp = os.path.join(gendir, p)
             if not os.path.exists(fp) or open(fp).read() != c:
                 verdict.add("%s/regen/%s/foreign-file-touched/%s" % (prop, layout, p), "the generator removed or changed %s, which it does not own" % p, dict(layout=layout, file=p))
-        twin = grammar.CUSTOM_TYPEREF_FILE[:-3] + ".gr.go"
-        if twin in runs[1]:
-            verdict.add("%s/regen/%s/custom-typeref-generated" % (prop, layout), "the hand-written custom typeref was not located: %s was generated beside it" % twin, dict(layout=layout))
+        for twin in (grammar.CUSTOM_TYPEREF_FILE[:-3] + ".gr.go", INTERNAL_TYPEREF_FILE[:-3] + ".gr.go"):
+            if twin in runs[1]:
+                verdict.add("%s/regen/%s/custom-typeref-generated/%s" % (prop, layout, twin), "the hand-written custom typeref was not located: %s was generated beside it" % twin, dict(layout=layout))
         rc, out = go_build(moddir)
         if rc != 0:
             verdict.add("%s/regen/%s/does-not-compile" % (prop, layout), "the regenerated tree does not build: " + out[-800:], dict(layout=layout))
